@@ -101,3 +101,17 @@ Print Assumptions source_make_constant_dispatch.
 Theorem source_create_component_dispatch : src_create_component = model_create_component.
 Proof. exact src_create_component_ok. Qed.
 Print Assumptions source_create_component_dispatch.
+
+(* string-encoded object paths: the body of ObjectPath.make_object_path is the transcribed one, and the model cuts the
+   text at ':' (58) and '.' (46) exactly so *)
+Theorem source_make_object_path : src_make_object_path = model_make_object_path.
+Proof. exact src_make_object_path_ok. Qed.
+Print Assumptions source_make_object_path.
+Theorem model_make_object_path_splits : forall lhs,
+  make_object_path lhs =
+  match split_all 58 lhs with
+  | ty :: p :: _ => Ok (APath ty (map create_component_str (split_all 46 p)))
+  | _ => Raise IndexError
+  end.
+Proof. exact model_make_object_path_ok. Qed.
+Print Assumptions model_make_object_path_splits.
